@@ -210,9 +210,11 @@ Definition check_rt (jf jt out : J) : verdict :=
           let creatable := ref_creatable (ref_name (pipeline_id s) (timestamp s)) in
           let prop := match o with
                       | OOk s' => creatable && sealed && state_eqb s s'
-                      | OErr c => if String.eqb c "create" then negb creatable
-                                  else if String.eqb c "checksum" then creatable && negb sealed
-                                  else false
+                      (* the property promises "an error", not its wording: any rejection is right
+                         exactly when the state must NOT load back (the file cannot be created, or
+                         the checksum does not seal the protected fields); the error CLASS is part
+                         of `agree` only *)
+                      | OErr _ => negb (creatable && sealed)
                       | OCrash => false
                       end in
           ok_verdict (agree_load o m && image_ok && table_ok tab) prop
